@@ -147,6 +147,10 @@ class Verifier:
                 self.fe.reg.add(ci)
                 for f, texpr in fields.items():
                     ci.fields[f] = self.fe.parse_type(texpr, None)
+        for name in self.db.load_classes:
+            modname, cname = name.split(":")
+            if self.fe.class_info(modname, cname) is None:
+                raise Unsupported(f"load_class target {name} not found")
         for cls_target, fields in self.db.field_types.items():
             modname, cname = cls_target.split(":")
             ci = self.fe.class_info(modname, cname)
